@@ -276,6 +276,8 @@ class NumpyModel:
         if isinstance(base, (int, float)):
             if name == "is_integer":
                 return float(base).is_integer()
+        if isinstance(base, (bool, int, float, str, tuple, list, dict)) and not hasattr(type(base), name):
+            raise _raise("AttributeError", node, f"'{type(base).__name__}' object has no attribute '{name}'")
         raise Unsupported(f"method {name} of {type(base).__name__}", node)
 
     def array_method(self, a, name, args, kwargs, node):
